@@ -43,7 +43,9 @@ EXPLANATION = (
     ' '
     'R-C01.19 = R-C06.13.'
     ' '
-    'R-C01.20 DatabaseState.find_index compares index columns as sequences.')
+    'R-C01.20 DatabaseState.find_index compares index columns as sequences.'
+    ' '
+    'R-C01.21 DatabaseState.remove_column_indexes forgets every index whose columns *contain* the deleted column (membership test controls the removal; an equality of the column list does not).')
 NOT_DECIDED = (
     'That the generated SQL executes and yields the same schema as creating '
     'the models from scratch, for any schema/sequence (needs SQLite and '
@@ -1278,7 +1280,67 @@ def r20_indexes_identified_by_ordered_columns(ctx):
     ctx.floor('column comparisons in DatabaseState.find_index', n, 1)
 
 
+def r21_deleted_column_forgets_every_covering_index(ctx):
+    """The SQLite rebuild for a dropped column drops *every* index that has
+    the column among its columns (single-column, index_together,
+    unique_together, Meta.indexes).  DatabaseState.remove_column_indexes is
+    what keeps the recorded state in step: the deletion inside its loop must
+    be controlled by a membership test of the column in the index's columns,
+    not by an equality of the whole column list (which only matches
+    single-column indexes, so a multi-column index stays recorded and a later
+    ChangeMeta re-declaring it is skipped as "already there")."""
+    ctx.rule('R-C01.21')
+    from ..util import expand_expr
+    p = ctx.program
+    f = p.func('db.state', 'DatabaseState.remove_column_indexes')
+    g = ctx.cfg(f)
+    dels = [n for n in g.nodes if n.kind == 'stmt' and (
+        isinstance(n.ast, ast.Delete) or any(
+            isinstance(c.func, ast.Attribute) and c.func.attr == 'pop'
+            for c in n.calls()))]
+    ctx.floor('index removals in remove_column_indexes', len(dels), 1)
+    col = f.params[2] if len(f.params) > 2 else 'column'
+    for d in dels:
+        member = eq = None
+        for t in g.nodes:
+            if t.kind not in ('test', 'operand') or t.ast is None:
+                continue
+            e = expand_expr(f, t.ast)
+            for c in ast.walk(e):
+                if not (isinstance(c, ast.Compare) and len(c.ops) == 1 and
+                        'columns' in unparse(c)):
+                    continue
+                if isinstance(c.ops[0], ast.In) and \
+                        isinstance(c.left, ast.Name) and c.left.id == col \
+                        and g.guarded_by(d, t, 'T'):
+                    member = t
+                elif isinstance(c.ops[0], ast.NotIn) and \
+                        isinstance(c.left, ast.Name) and c.left.id == col \
+                        and g.guarded_by(d, t, 'F'):
+                    member = t
+                elif isinstance(c.ops[0], (ast.Eq, ast.NotEq)) and (
+                        g.guarded_by(d, t, 'T') or g.guarded_by(d, t, 'F')):
+                    eq = t
+        if eq is not None:
+            ctx.finding(f, eq.ast, 'remove_column_indexes forgets an index '
+                        'only when its column list *equals* the deleted '
+                        'column (%s): a multi-column index covering the '
+                        'column stays recorded although the rebuild dropped '
+                        'it, and is never re-created' %
+                        ' '.join(unparse(eq.ast).split()),
+                        key='covering-index-by-equality')
+        elif member is not None:
+            ctx.ok(f, 'every index whose columns contain the deleted column '
+                   'is forgotten', d.ast)
+        else:
+            ctx.finding(f, d.ast, 'the removal in remove_column_indexes is '
+                        'not controlled by a membership test of the column '
+                        'in the index\'s columns',
+                        key='covering-index-not-by-membership')
+
+
 def run(ctx):
+    r21_deleted_column_forgets_every_covering_index(ctx)
     r20_indexes_identified_by_ordered_columns(ctx)
     r19_q_state_stored_independently(ctx)
     r18_index_names_from_columns(ctx)
